@@ -17,6 +17,13 @@ certificates of its `x5c` chain; for the HTTP cache: the whole exchange).
 namespace Heimdall.Props.C10
 open Heimdall.Validity
 
+/-- **The tie to the source holds for this run:** the leeway and default-TTL constants the model uses
+(`Gen/CacheConsts.lean`) were read from the current source. When the extractor cannot find one of them it writes a
+stub with `extractionOk := false` and this theorem — and only this property — stops checking. The sign facts the
+theorems rely on are re-checked by the kernel in `Lemmas/CacheValidity.lean` (`leeway_nonneg`, `token_leeway_pos`,
+`default_validity_leeway_pos`). -/
+theorem c10_constants_read_from_source : Gen.extractionOk = true := by decide
+
 /-! ## the stores -/
 
 /-- **Expiry is enforced for every TTL.** Whatever `get` returns for a key right after a `set` of that key is
@@ -79,10 +86,10 @@ override of a prototype that has caching enabled: over any history the cache is 
 the remote party: no outcome is a hit), never written (no outcome carries a stored TTL) and the store stays as it
 was. -/
 theorem c10_nonpositive_ttl_disables (m : Mech) (hm : m ≠ .jwtFinalizer) (proto : Option Int) (c : Int)
-    (hc : c ≤ 0) (vl : Nat) (k : StoreKind) (s : Store (Item Answer)) (now : Int) (idx : Nat)
+    (hc : c ≤ 0) (vl : Int) (k : StoreKind) (s : Store (Item Answer)) (now : Int) (idx : Nat)
     (reqs : List (Req Answer)) :
     let p := mechPolicy m (effective proto (some c)) vl
-    p.lookup = false ∧ runStore p k s now idx reqs = s ∧
+    (∀ u, p.lookup u = false) ∧ runStore p k s now idx reqs = s ∧
       ∀ t o, (t, o) ∈ run p k s now idx reqs → o = .denied ∨ ∃ it, o = .fresh it none := by
   intro p
   have hl := mech_lookup_off m hm proto c hc vl
@@ -98,11 +105,15 @@ validity leeway, both stores and every history of requests starting from an empt
 answered from the cache at time `t` with the cached result `it`, that reuse is permitted by the specification
 (`mayReuse`): an authentication result only while `t < exp + leeway`, a verification key only while
 `t ≤ NotAfter`, a token only while `t < exp`. -/
-theorem c10_reuse_within_validity (m : Mech) (proto ovr : Option Int) (vl : Nat) (k : StoreKind)
+theorem c10_reuse_within_validity (m : Mech) (proto ovr : Option Int) (vl : Int) (hvl : 0 ≤ vl) (k : StoreKind)
     (reqs : List (Req Answer)) (now : Int) (t : Int) (it : Item Answer)
     (h : (t, Outcome.hit it) ∈ run (mechPolicy m (effective proto ovr) vl) k [] now 0 reqs) :
     mayReuse m (effective proto ovr) vl it t = true :=
-  run_hits (mech_sound m (effective proto ovr) vl) k reqs [] now 0 (inv_nil _) t it h
+  run_hits (mech_sound m (effective proto ovr) vl hvl) k reqs [] now 0 (inv_nil _) t it h
+
+/- the validity leeway is a configured duration; a negative one is refused when the configuration is loaded
+   (fix C10-5), `0` stands for "not set" -/
+example : (0 : Int) ≤ 0 ∧ (0 : Int) ≤ 30 := by decide
 
 /- a hit does happen: a token good for a long time, cached at 0 for the configured 300 s, is reused at 15 -/
 example : (15, Outcome.hit ⟨⟨some 1000000, []⟩, 0, 0⟩) ∈
@@ -112,11 +123,11 @@ example : (15, Outcome.hit ⟨⟨some 1000000, []⟩, 0, 0⟩) ∈
 /-- An authentication result (introspection response, session) is not accepted from the cache at or after the
 credential's expiry plus the validity leeway. -/
 theorem c10_authn_not_accepted_after_expiry (m : Mech) (hm : m = .introspection ∨ m = .generic)
-    (proto ovr : Option Int) (vl : Nat) (k : StoreKind) (reqs : List (Req Answer)) (now t e : Int)
+    (proto ovr : Option Int) (vl : Int) (hvl : 0 ≤ vl) (k : StoreKind) (reqs : List (Req Answer)) (now t e : Int)
     (it : Item Answer) (he : it.ans.exp = some e)
     (h : (t, Outcome.hit it) ∈ run (mechPolicy m (effective proto ovr) vl) k [] now 0 reqs) :
     t < e + validityLeeway m vl := by
-  have := c10_reuse_within_validity m proto ovr vl k reqs now t it h
+  have := c10_reuse_within_validity m proto ovr vl hvl k reqs now t it h
   rcases hm with hm | hm <;> subst hm <;> simpa [mayReuse, he] using this
 
 example : (20, Outcome.hit ⟨⟨some 1000000, []⟩, 0, 0⟩) ∈
@@ -126,11 +137,11 @@ example : (20, Outcome.hit ⟨⟨some 1000000, []⟩, 0, 0⟩) ∈
 /-- A cached verification key is not used after `NotAfter` of its certificate — its own certificate, the first
 element of the `x5c` chain (`it.ans.exp`); the rest of the chain (`it.ans.more`, any length, any expiry) is
 irrelevant for this bound. -/
-theorem c10_key_not_used_after_cert_expiry (proto ovr : Option Int) (vl : Nat) (k : StoreKind)
+theorem c10_key_not_used_after_cert_expiry (proto ovr : Option Int) (vl : Int) (hvl : 0 ≤ vl) (k : StoreKind)
     (reqs : List (Req Answer)) (now t e : Int) (it : Item Answer) (he : it.ans.exp = some e)
     (h : (t, Outcome.hit it) ∈ run (mechPolicy .jwtKey (effective proto ovr) vl) k [] now 0 reqs) :
     t ≤ e := by
-  simpa [mayReuse, he] using c10_reuse_within_validity .jwtKey proto ovr vl k reqs now t it h
+  simpa [mayReuse, he] using c10_reuse_within_validity .jwtKey proto ovr vl hvl k reqs now t it h
 
 example : (590, Outcome.hit ⟨⟨some 1000000, []⟩, 0, 0⟩) ∈
     run (mechPolicy .jwtKey (effective (some 600) none) 0) .memory [] 0 0
@@ -162,7 +173,7 @@ example : (40, Outcome.hit ⟨⟨some 70, [90000]⟩, 0, 0⟩) ∈
 
 /-- A token obtained (client credentials) or issued (JWT finalizer) by a finalizer is never handed out from the
 cache when it is already expired. -/
-theorem c10_token_not_handed_out_expired (proto ovr : Option Int) (vl : Nat) (k : StoreKind)
+theorem c10_token_not_handed_out_expired (proto ovr : Option Int) (vl : Int) (hvl : 0 ≤ vl) (k : StoreKind)
     (reqs : List (Req Answer)) (now t : Int) (it : Item Answer) :
     ((t, Outcome.hit it) ∈ run (mechPolicy .clientCreds (effective proto ovr) vl) k [] now 0 reqs →
       ∀ e, it.ans.exp = some e → t < e) ∧
@@ -170,9 +181,9 @@ theorem c10_token_not_handed_out_expired (proto ovr : Option Int) (vl : Nat) (k 
       t < it.time + tokenLifetime (effective proto ovr)) := by
   constructor
   · intro h e he
-    simpa [mayReuse, he] using c10_reuse_within_validity .clientCreds proto ovr vl k reqs now t it h
+    simpa [mayReuse, he] using c10_reuse_within_validity .clientCreds proto ovr vl hvl k reqs now t it h
   · intro h
-    simpa [mayReuse] using c10_reuse_within_validity .jwtFinalizer proto ovr vl k reqs now t it h
+    simpa [mayReuse] using c10_reuse_within_validity .jwtFinalizer proto ovr vl hvl k reqs now t it h
 
 example : (1, Outcome.hit ⟨⟨none, []⟩, 0, 0⟩) ∈
     run (mechPolicy .jwtFinalizer (effective (some 3600) none) 0) .memory [] 0 0
@@ -183,7 +194,7 @@ example : (50, Outcome.hit ⟨⟨some 1000000, []⟩, 0, 0⟩) ∈
 
 /-- **The cache leeway survives any history:** a cached result with a known expiry `e` is reused no later than
 `e` minus the mechanism's leeway constant (10 s for authentication results and keys, 5 s for tokens). -/
-theorem c10_reuse_keeps_leeway (m : Mech) (hm : m ≠ .jwtFinalizer) (proto ovr : Option Int) (vl : Nat)
+theorem c10_reuse_keeps_leeway (m : Mech) (hm : m ≠ .jwtFinalizer) (proto ovr : Option Int) (vl : Int)
     (k : StoreKind) (reqs : List (Req Answer)) (now t e : Int) (it : Item Answer)
     (he : it.ans.exp = some e) (hm' : m ≠ .remoteAuthz ∧ m ≠ .contextualizer)
     (h : (t, Outcome.hit it) ∈ run (mechPolicy m (effective proto ovr) vl) k [] now 0 reqs) :
@@ -204,63 +215,146 @@ settings `(cache_ttl, validity leeway)`: whatever is served from the cache keeps
 is permitted from the point of view of *every* instance, in particular of the one that serves it. -/
 theorem c10_shared_entries_reuse_within_validity (m : Mech) (hm : m ≠ .jwtFinalizer)
     (hm' : m ≠ .remoteAuthz ∧ m ≠ .contextualizer) (k : StoreKind)
-    (reqs : List ((Option Int × Nat) × Req Answer)) (now t : Int) (it : Item Answer)
+    (reqs : List ((Option Int × Int) × Req Answer)) (now t : Int) (it : Item Answer)
     (h : (t, Outcome.hit it) ∈
       runMixed k [] now 0 (reqs.map (fun cr => (mechPolicy m cr.1.1 cr.1.2, cr.2)))) :
-    withinMargin m it t = true ∧ ∀ cfg vl, mayReuse m cfg vl it t = true := by
+    withinMargin m it t = true ∧ ∀ cfg vl, 0 ≤ vl → mayReuse m cfg vl it t = true := by
   have hw : withinMargin m it t = true := by
     apply runMixed_hits k _ _ [] now 0 (inv_nil _) t it h
     intro pr hpr
     obtain ⟨cr, _, rfl⟩ := List.mem_map.mp hpr
     exact margin_sound m hm hm' cr.1.1 cr.1.2
-  exact ⟨hw, fun cfg vl => mayReuse_of_withinMargin m hm cfg vl it t hw⟩
+  exact ⟨hw, fun cfg vl hvl => mayReuse_of_withinMargin m hm cfg vl hvl it t hw⟩
 
 /- a rule with `cache_ttl: 1h` stores, a rule with `cache_ttl: 5s` and a tight validity leeway reuses the entry -/
 example : (100, Outcome.hit ⟨⟨some 1000000, []⟩, 0, 0⟩) ∈
     runMixed .memory [] 0 0 ([((some 3600, 0), ⟨0, 0, ⟨some 1000000, []⟩⟩), ((some 5, 1), ⟨100, 0, ⟨some 1000000, []⟩⟩)].map
-      (fun (cr : (Option Int × Nat) × Req Answer) => (mechPolicy .introspection cr.1.1 cr.1.2, cr.2))) := by
+      (fun (cr : (Option Int × Int) × Req Answer) => (mechPolicy .introspection cr.1.1 cr.1.2, cr.2))) := by
   decide
+
+/-- **The configured TTL also bounds every reuse by the instance that has it.** One instance of a mechanism with
+`cache_ttl = c` (any mechanism but the JWT finalizer, which has no `cache_ttl`), any history: whatever it serves
+from the cache was obtained at most `max 0 c` ago. -/
+theorem c10_hit_within_configured_ttl (m : Mech) (hm : m ≠ .jwtFinalizer) (c : Int) (vl : Int) (k : StoreKind)
+    (reqs : List (Req Answer)) (now t : Int) (it : Item Answer)
+    (h : (t, Outcome.hit it) ∈ run (mechPolicy m (some c) vl) k [] now 0 reqs) :
+    t ≤ it.time + max 0 c := by
+  have := run_hits (configured_sound m hm c vl) k reqs [] now 0 (inv_nil _) t it h
+  simpa [withinConfigured] using this
+
+example : Mech.generic ≠ .jwtFinalizer := by decide
+example : (60, Outcome.hit ⟨⟨none, []⟩, 0, 0⟩) ∈ run (mechPolicy .generic (some 60) 0) .memory [] 0 0
+    [⟨0, 0, ⟨none, []⟩⟩, ⟨60, 0, ⟨none, []⟩⟩] := by decide
+
+/-- This does **not** carry over to instances that share entries: a rule with `cache_ttl: 5s` is served an entry
+that a rule with `cache_ttl: 1h` of the same authenticator stored 100 s earlier. The reader's TTL limits only what
+the reader stores (validity is kept all the same: `c10_shared_entries_reuse_within_validity`). -/
+theorem c10_shared_entries_ignore_readers_ttl :
+    ∃ (t : Int) (it : Item Answer), (t, Outcome.hit it) ∈
+      runMixed .memory [] 0 0 [(mechPolicy .introspection (some 3600) 0, ⟨0, 0, ⟨some 1000000, []⟩⟩),
+                               (mechPolicy .introspection (some 5) 0, ⟨100, 0, ⟨some 1000000, []⟩⟩)]
+      ∧ ¬ (t ≤ it.time + max 0 5) :=
+  ⟨100, ⟨⟨some 1000000, []⟩, 0, 0⟩, by decide, by decide⟩
+
+/-- **Whatever is served from the cache would also pass the validity check of a fresh answer at that moment** —
+the check the introspection authenticator repeats on every cache hit never fails for an entry that is still alive,
+so a hit is never turned into a refusal. -/
+theorem c10_hit_passes_revalidation (m : Mech) (hm : m = .introspection ∨ m = .generic)
+    (proto ovr : Option Int) (vl : Int) (hvl : 0 ≤ vl) (k : StoreKind) (reqs : List (Req Answer)) (now t : Int)
+    (it : Item Answer)
+    (h : (t, Outcome.hit it) ∈ run (mechPolicy m (effective proto ovr) vl) k [] now 0 reqs) :
+    acceptsFresh m vl (remaining m (effective proto ovr) t it.ans) = true :=
+  acceptsFresh_of_mayReuse m hm _ vl it t (c10_reuse_within_validity m proto ovr vl hvl k reqs now t it h)
+
+example : Mech.introspection = .introspection ∨ Mech.introspection = .generic := by decide
 
 /-! ## HTTP responses of remote endpoints -/
 
 /-- **A response is never served from the cache after its freshness lifetime.** For every `default_ttl`, both
-stores and every history of exchanges (any `Cache-Control` / `Expires` / `Date` combination), whenever a request is
-answered from the cache at `t`, the cached response's age `t − received` is within its RFC 7234 freshness lifetime
-(`mayServe`). -/
+stores and every history of exchanges (any method, body, `Cache-Control` / `Expires` / `Date` / `Age` /
+`Last-Modified` / `Vary` combination), whenever a request is answered from the cache at `t`, the cached response's
+current age — the age it arrived with (RFC 7234 section 4.2.3) plus the time spent in the cache — is within its
+freshness lifetime, and a response without explicit expiration time is not older than `default_ttl` (`mayServe`). -/
 theorem c10_http_served_only_while_fresh (dttl : Int) (k : StoreKind) (reqs : List (Req Exchange)) (now t : Int)
     (it : Item Exchange) (h : (t, Outcome.hit it) ∈ run (httpPolicy dttl) k [] now 0 reqs) :
-    mayServe it t = true :=
+    mayServe dttl it t = true :=
   run_hits (http_sound dttl) k reqs [] now 0 (inv_nil _) t it h
 
 /-- a plain `GET` answered with `200` and `max-age=60`, no other headers -/
 def sampleExchange : Exchange :=
-  { method := .get, reqAuth := false, reqNoStore := false, status := 200, noStore := false, isPublic := false,
-    mustRevalidate := false, maxAge := some 60, sMaxAge := none, badCC := false, expires := .absent, date := none }
+  { method := .get, hasBody := false, reqAuth := false, reqNoStore := false, status := 200, noStore := false,
+    noCache := false, isPublic := false, mustRevalidate := false, vary := false, maxAge := some 60, sMaxAge := none,
+    badCC := false, expires := .absent, date := none, age := none, lastModified := none }
 
 example : (60, Outcome.hit ⟨sampleExchange, 0, 0⟩) ∈ run (httpPolicy 0) .memory [] 0 0
     [⟨0, 0, sampleExchange⟩, ⟨60, 0, sampleExchange⟩] := by decide
+/- the same response arriving with `Age: 20` is served until 40 s after its receipt only -/
+example : (40, Outcome.hit ⟨{ sampleExchange with age := some 20 }, 0, 0⟩) ∈ run (httpPolicy 0) .memory [] 0 0
+      [⟨0, 0, { sampleExchange with age := some 20 }⟩, ⟨40, 0, sampleExchange⟩]
+    ∧ (41, Outcome.hit ⟨{ sampleExchange with age := some 20 }, 0, 0⟩) ∉ run (httpPolicy 0) .memory [] 0 0
+      [⟨0, 0, { sampleExchange with age := some 20 }⟩, ⟨41, 0, sampleExchange⟩] := by decide
 
-/-- **A response whose freshness lifetime is zero or negative is not stored at all** (`max-age=0`, `Expires` not
-after `Date`, `Expires` that is not a date), for every `default_ttl` and every store content: no `Set` happens and
-the store is unchanged. -/
+/-- **A response that must not be stored is not stored at all**: freshness lifetime zero or negative (`max-age=0`,
+`Expires` not after `Date`, `Expires` that is not a date — whatever `Last-Modified` says), `no-cache`, or no explicit
+expiration time while `default_ttl` is not positive. For every store content: no `Set` happens and the store is
+unchanged. -/
 theorem c10_http_not_stored_without_lifetime (dttl : Int) (k : StoreKind) (s : Store (Item Exchange))
-    (now : Int) (idx : Nat) (r : Req Exchange) (h : mayStore now r.up = false) :
+    (now : Int) (idx : Nat) (r : Req Exchange) (h : mayStore dttl now r.up = false) :
     (step (httpPolicy dttl) k s now idx r).1 = s ∧
       ∀ it ttl, (step (httpPolicy dttl) k s now idx r).2 ≠ .fresh it (some ttl) :=
   step_no_store (httpPolicy dttl) k s now idx r (httpTTL_nonpos dttl now r.up h)
 
-example : mayStore 1000 { sampleExchange with maxAge := some 0 } = false := by decide
-example : mayStore 1000 { sampleExchange with maxAge := none, expires := .valid 990, date := some 995 } = false := by
+example : mayStore 30 1000 { sampleExchange with maxAge := some 0 } = false := by decide
+example : mayStore 30 1000 { sampleExchange with maxAge := none, expires := .valid 990, date := some 995 } = false := by
   decide
-example : mayStore 1000 { sampleExchange with maxAge := none, expires := .invalid } = false := by decide
+example : mayStore 1800 1000
+    { sampleExchange with maxAge := none, lastModified := some (-85400), expires := .invalid } = false := by decide
+example : mayStore 0 1000 { sampleExchange with maxAge := none, lastModified := some (-863000) } = false := by decide
+example : mayStore 30 1000 { sampleExchange with noCache := true } = false := by decide
 
 /-- **`default_ttl` never extends an explicit lifetime:** when the response states a freshness lifetime `l`, the
-TTL is at most `l`, whatever the configured default. -/
+TTL is at most what is left of `l` after the age the response arrived with, whatever the configured default. -/
 theorem c10_http_ttl_le_lifetime (dttl now : Int) (x : Exchange) (l : Int)
-    (hl : freshnessLifetime now x = some l) : httpTTL dttl now x ≤ max 0 l :=
+    (hl : freshnessLifetime now x = some l) : httpTTL dttl now x ≤ max 0 (l - initialAge now x) :=
   httpTTL_le_lifetime dttl now x l hl
 
 example : freshnessLifetime 1000 sampleExchange = some 60 := by decide
 example : httpTTL 1800 1000 sampleExchange = 60 := by decide
+
+/-- **Without an explicit lifetime the configured `default_ttl` is all a response can get** — in particular no
+heuristic lifetime is derived from `Last-Modified`, and a `default_ttl` of zero (or below) means "not cached". -/
+theorem c10_http_ttl_le_default_ttl (dttl now : Int) (x : Exchange) (hl : freshnessLifetime now x = none) :
+    httpTTL dttl now x ≤ max 0 dttl :=
+  httpTTL_le_default dttl now x hl
+
+example : freshnessLifetime 1000 { sampleExchange with maxAge := none, lastModified := some (-863000) } = none := by
+  decide
+example : httpTTL 10 1000 { sampleExchange with maxAge := none, lastModified := some (-863000) } = 10 := by decide
+
+/-- **Endpoint settings.** Without `http_cache`, or with `enabled: false`, there is no response cache: over any
+history nothing is read from or written to it. The OAuth2 metadata endpoint differs only in what "not configured"
+means (enabled, 30 minutes): a configured `default_ttl` — zero included — is used as it is, so `default_ttl: 0s`
+still means "responses without explicit expiration time are not cached". -/
+theorem c10_http_cache_settings (c : Option HttpCacheConf) (d : Int) (k : StoreKind) (s : Store (Item Exchange))
+    (now : Int) (idx : Nat) (reqs : List (Req Exchange)) :
+    (c = none ∨ (∃ d', c = some ⟨false, d'⟩) →
+      runStore (endpointPolicy c) k s now idx reqs = s ∧
+      ∀ t o, (t, o) ∈ run (endpointPolicy c) k s now idx reqs → o = .denied ∨ ∃ it, o = .fresh it none) ∧
+    endpointPolicy (some ⟨true, d⟩) = httpPolicy d ∧
+    metadataPolicy (some ⟨true, d⟩) = httpPolicy d ∧
+    metadataPolicy (some ⟨false, d⟩) = noCachePolicy ∧
+    metadataPolicy none = httpPolicy Gen.metadataDefaultTTL := by
+  refine ⟨?_, rfl, rfl, rfl, rfl⟩
+  intro h
+  have hp : endpointPolicy c = noCachePolicy := by
+    rcases h with h | ⟨d', h⟩ <;> subst h <;> rfl
+  rw [hp]
+  exact run_disabled noCachePolicy_off.1 noCachePolicy_off.2 k reqs s now idx
+
+example : metadataPolicy (some ⟨true, 0⟩) = httpPolicy 0 := rfl
+example : (1, Outcome.hit ⟨{ sampleExchange with maxAge := none }, 0, 0⟩) ∉ run (metadataPolicy (some ⟨true, 0⟩))
+    .memory [] 0 0 [⟨0, 0, { sampleExchange with maxAge := none }⟩, ⟨1, 0, sampleExchange⟩] := by decide
+example : (1, Outcome.hit ⟨{ sampleExchange with maxAge := none }, 0, 0⟩) ∈ run (metadataPolicy none)
+    .memory [] 0 0 [⟨0, 0, { sampleExchange with maxAge := none }⟩, ⟨1, 0, sampleExchange⟩] := by decide
 
 end Heimdall.Props.C10
